@@ -374,7 +374,7 @@ func (s *mState) key() string {
 	return sb.String()
 }
 
-var c15ScriptGlobals = map[string][]string{"const": {"cst"}, "copyx": {"gx"}, "addi": {"gi"}, "adds": {"gs"}, "arr": {"arr", "n"}, "map": {"m"}, "loop": {"acc"}, "loopi": {"acc2"}, "ifblk": {"blk"}, "decl": {"late"}, "fail": {"nf"}}
+var c15ScriptGlobals = map[string][]string{"const": {"cst"}, "copyx": {"gx"}, "addi": {"gi"}, "adds": {"gs"}, "arr": {"arr", "n"}, "map": {"m"}, "loop": {"acc"}, "loopi": {"acc2"}, "ifblk": {"blk"}, "shadow": {"shw"}, "fshadow": {"sf", "gsf"}, "decl": {"late"}, "fail": {"nf"}}
 
 // effect of one statement on a store. ok=false: the statement fails at run time.
 func mApply(st gen.C15Stmt, store map[string]plan.Value) bool {
@@ -418,6 +418,11 @@ func mApply(st gen.C15Stmt, store map[string]plan.Value) bool {
 		if get("ini").I != 0 {
 			store["blk"] = plan.Int(get("ini").I + st.C)
 		}
+	case "shadow":
+		store["shw"] = plan.Int(st.C)
+	case "fshadow":
+		store["sf"] = plan.Value{T: "obj", S: "compiled-function"}
+		store["gsf"] = plan.Str(st.S + "z")
 	case "decl":
 		store["late"] = plan.Int(st.C)
 	case "fail":
@@ -462,7 +467,7 @@ func mRun(sc *gen.C15Script, start map[string]plan.Value, hostFaultAt int, hostN
 			continue
 		}
 		// multi-effect statements can be cut in the middle by an asynchronous stop
-		if anyPrefix && (st.K == "arr" || st.K == "map" || st.K == "loop" || st.K == "fail" || st.K == "loopi" || st.K == "ifblk") {
+		if anyPrefix && (st.K == "arr" || st.K == "map" || st.K == "loop" || st.K == "fail" || st.K == "loopi" || st.K == "ifblk" || st.K == "shadow" || st.K == "fshadow") {
 			for _, part := range mPartials(st, store) {
 				outs = append(outs, mRunOutcome{store: part, failed: true, why: "prefix"})
 			}
@@ -524,6 +529,10 @@ func mPartials(st gen.C15Stmt, store map[string]plan.Value) []map[string]plan.Va
 		}
 	case "ifblk":
 		add(func(m map[string]plan.Value) { m["blk"] = plan.Int(0) })
+	case "shadow":
+		add(func(m map[string]plan.Value) { m["shw"] = plan.Int(0) })
+	case "fshadow":
+		add(func(m map[string]plan.Value) { m["sf"] = plan.Value{T: "obj", S: "compiled-function"} })
 	}
 	return out
 }
